@@ -31,7 +31,7 @@ ASSUMPTIONS = [
     'not violated',
     'asynchronous generators are driven to exhaustion (all their gates are eventually released)',
 ]
-REQUIRED = {'scenarios': 1500, 'deliveries': 1500, 'scenarios_two_pending': 500, 'scenarios_plain_while_pending': 300, 'rx_scenarios': 200, 'rxlazy_scenarios': 200,
+REQUIRED = {'scenarios': 1500, 'deliveries': 1500, 'scenarios_two_pending': 500, 'scenarios_plain_while_pending': 300, 'rx_scenarios': 200, 'rxlazy_scenarios': 200, 'rxgen_scenarios': 100,
             'faults_fired': 300}
 DEVMODE = False
 
@@ -47,6 +47,7 @@ def setup(P):
 
     class Tgt(param.Parameterized):
         x = param.Parameter(default='init', allow_refs=True)
+        aux = param.Parameter(default=None)
 
     _st['Src'], _st['Tgt'] = Src, Tgt
     _st['loop'] = asyncio.new_event_loop()
@@ -100,6 +101,9 @@ def enumerate_scenarios(P):
                     continue
                 for inter in [None] + list(range(len(order) + 1)):
                     out.append(dict(target='param', ops=ops, run_between=rb, order=order, interleave=inter))
+                    if inter is not None and len(ops) <= 2:
+                        # the interleaved plain assignment made by a callback that runs under trigger() of another parameter
+                        out.append(dict(target='param', ops=ops, run_between=rb, order=order, interleave=inter, via_trigger=True))
                 # a fault while one result is being applied: the watcher raises for the result of one coroutine / bound
                 # function (generators are left alone: an exception ends the generator's task by design)
                 if len(ops) <= 3:
@@ -111,6 +115,16 @@ def enumerate_scenarios(P):
         for rb in itertools.product([False, True], repeat=n - 1):
             for order in itertools.permutations(range(n)):
                 out.append(dict(target='rx', n=n, run_between=rb, order=order))
+    # reactive pipeline through an asynchronous GENERATOR stage (two gated items per evaluation): every completion order in
+    # which each generator yields its items in sequence
+    for n in range(1, min(tier_n, 3) + 1):
+        gates = [(i, j) for i in range(n) for j in range(2)]
+        for rb in itertools.product([False, True], repeat=n - 1):
+            for order in itertools.permutations(gates):
+                if any(order.index((i, 1)) < order.index((i, 0)) for i in range(n)):
+                    continue
+                for watched in (False, True):
+                    out.append(dict(target='rxgen', n=n, run_between=rb, order=order, watched=watched))
     # lazily evaluated pipeline (no watcher forces re-evaluation) with a root and a non-root input
     for n in range(1, tier_n + 1):
         for ins in itertools.product(['root', 'arg'], repeat=n):
@@ -142,6 +156,8 @@ def run_case(idx, rng, P, rep):
         res = loop.run_until_complete(run_param(sc, rep))
     elif sc['target'] == 'rxlazy':
         res = loop.run_until_complete(run_rxlazy(sc, rep))
+    elif sc['target'] == 'rxgen':
+        res = loop.run_until_complete(run_rxgen(sc, rep))
     else:
         res = loop.run_until_complete(run_rx(sc, rep))
     # cancel whatever is left so that scenarios do not leak into each other
@@ -233,7 +249,13 @@ async def run_param(sc, rep):
     for pos, g in enumerate(list(sc['order']) + [None]):
         if sc['interleave'] == pos:
             newest[0] = len(ops)
-            t.x = ('plain', len(ops))
+            if sc.get('via_trigger'):
+                w = t.param.watch(lambda e: setattr(t, 'x', ('plain', len(ops))), 'aux', onlychanged=False)
+                t.param.trigger('aux')
+                t.param.unwatch(w)
+                rep.count('plain_assignments_from_trigger_callback')
+            else:
+                t.x = ('plain', len(ops))
             plain_while_pending = plain_while_pending or any(not f.done() for f in gates.values())
             final_expected = ('plain', len(ops))
         if g is None:
@@ -351,6 +373,48 @@ async def run_rxlazy(sc, rep):
                       f'after all evaluations completed the expression holds {final!r}, its inputs now give {exp!r} '
                       f'(evaluations started for {started})', case=desc, trace=[repr(x) for x in seen])
     return len(started) >= 2
+
+
+async def run_rxgen(sc, rep):
+    param = _st['param']
+    loop = asyncio.get_running_loop()
+    n = sc['n']
+    gates = {(i, j): loop.create_future() for i in range(n) for j in range(2)}
+    root = param.rx(-1)
+
+    async def agen(v):
+        if v < 0:
+            yield ('res', -1, 1)
+            return
+        yield await gates[(v, 0)]
+        yield await gates[(v, 1)]
+    expr = root.rx.pipe(agen)
+    seen = []
+    if sc['watched']:
+        expr.rx.watch(seen.append)
+    outcome_value(expr)
+    await turns(6)
+    desc = {k: (list(v) if isinstance(v, tuple) else v) for k, v in sc.items()}
+    for i in range(n):
+        root.rx.value = i
+        outcome_value(expr)
+        if i < n - 1 and sc['run_between'][i]:
+            await turns()
+    await turns()
+    for g in sc['order']:
+        if not gates[g].done():
+            gates[g].set_result(('res',) + g)
+        await turns()
+        outcome_value(expr)
+    await turns(30)
+    rep.count('rxgen_scenarios')
+    rep.count('deliveries', len(seen))
+    final = outcome_value(expr)
+    exp = ('res', n - 1, 1)
+    if final != exp:
+        rep.violation('C10/rx/final-value/superseded-or-missing-result/generator-stage', f'after all evaluations completed the expression '
+                      f'holds {final!r}, the latest root value gives {exp!r}', case=desc, trace=[repr(x) for x in seen])
+    return n >= 2
 
 
 async def run_rx(sc, rep):
